@@ -6,6 +6,7 @@ O(mm, mode, sk, si, ron) == [maxMoved |-> mm, mode |-> mode, selKind |-> sk, sel
 M(s, c, o) == [s |-> s, c |-> c, o |-> o]
 NoInj(n) == [i \in 1..n |-> <<>>]
 C(kind, mem, ij, mg, dn) == [kind |-> kind, mem |-> mem, inj |-> ij, migrated |-> mg, deny |-> dn]
+ConstTRUE == TRUE
 MUL == M(-1, "M", FALSE)
 EXE == M(-1, "E", FALSE)
 
